@@ -22,6 +22,27 @@ def chk(pid, category, text, note, technique, design_ref, thorough=True):
 
 exec(open(os.path.join(VERIF, "tools", "manifest_table.py")).read())
 
+# additions of round 5 (kept here so that the per-property texts above stay readable)
+SUBSET_TIER = ["C02", "C03", "C04", "C05", "C06", "C07", "C08", "C09", "C10", "C11", "C12", "C13", "C14", "C15", "C18", "C19", "C20"]
+for pid_ in SUBSET_TIER:
+    if pid_ in CHECKS:
+        CHECKS[pid_]["level_claimed"]["text"] += (" Shared premises re-established on every run: entry chain, token stream, derived trait impls, and profile independence (no assignment or &mut borrow under a"
+            " compile-time constant condition such as debug_assert!/cfg!, no cfg predicate other than the five evaluator features), so the analysed configuration stands for dev and release builds."
+            " Thorough tier: the same decision procedure is run directly in every proper feature subset that contains the evaluators concerned (15-30 configurations) in addition to the all-features build.")
+for pid_, ev_ in (("C05", "eval_f64"), ("C06", "eval_i64"), ("C07", "eval_decimal"), ("C08", "eval_complex"), ("C09", "eval_number")):
+    if pid_ in CHECKS:
+        CHECKS[pid_]["level_claimed"]["text"] += " Premise (the statement is about expressions, whose value is that of the standard tree): C04's precedence tables for %s." % ev_
+extra = {
+    "C02": " The loop census covers every reachable function, including helpers outside the evaluator modules (utils).",
+    "C12": " The bracket helper / implicit-product hook may only be an arm's final step (never parses a function argument in the middle of an arm).",
+    "C14": " `@` is not in the implicit-product trigger set.",
+    "C15": " avg and med of eval_i64 / eval_f64 / eval_number each are the mean / median schema of their own value type (C11's schemas reused).",
+    "C19": " eval_complex: a literal directly followed by `i` is the imaginary literal and consumes the `i`.",
+}
+for pid_, tx_ in extra.items():
+    if pid_ in CHECKS:
+        CHECKS[pid_]["level_claimed"]["text"] += tx_
+
 na = []
 for p in ids:
     if p not in CHECKS:
